@@ -36,7 +36,7 @@ def input_for(name):
         return Bytes([("pay", Payload("bytes", range(256), Sym("in_len", (), "usize", 0, 64), origin="input"))], False)
 
 
-def impl_leaves(env, self_ty, key, name, unsafe_mode=None):
+def impl_leaves(env, self_ty, key, name, unsafe_mode=None, make_input=None):
     prog, ctx = env.prog, env.ctx
     table = env.memo("muttable", lambda: mutsum.MutatorTable(prog))
     mf = H.models_factory(prog, ctx, None)
@@ -45,7 +45,7 @@ def impl_leaves(env, self_ty, key, name, unsafe_mode=None):
     def one(run):
         I = Interp(prog, run, mf())
         me = table.self_value(self_ty, unsafe_mode)
-        val = input_for(name)
+        val = (make_input or input_for)(name)
         src = G.AbsSource(prog)
         rate = Sym("rate", (), "f64", attrs={"name": "rate"})
         one.last = (I, me, val, rate, None)
@@ -288,9 +288,9 @@ def rule_C16(env):
     samples = []
     seen_types = set()
 
-    def fired(name, self_ty, key, unsafe_mode=None):
+    def fired(name, self_ty, key, unsafe_mode=None, make_input=None):
         out = []
-        for lf in impl_leaves(env, self_ty, key, name, unsafe_mode):
+        for lf in impl_leaves(env, self_ty, key, name, unsafe_mode, make_input):
             if lf["end"] is not None:
                 res.add("panic", "%s/%s/%s" % (self_ty.split("::")[-1], name, lf["end"].kind),
                         "%s::%s can %s: %s" % (self_ty.split("::")[-1], name, "panic" if lf["end"].kind == "panic" else "not return", lf["end"].info), env.loc(key))
@@ -320,6 +320,22 @@ def rule_C16(env):
                             {"result": repr(r)[:300]})
                 if len(samples) < 8 and not probs:
                     samples.append({"mutator": short, "method": name, "result_term": repr(r)[:160]})
+    # the Mutator trait is public: strings with multi-byte characters are inputs too (the generator itself only passes ASCII).
+    # Decided for them: no panic (byte offsets used as character positions), and the same contract clauses.
+    def non_ascii(name):
+        return Bytes([("pay", Payload("str", list(range(32, 127)) + [0xC3, 0xA9, 0xE2, 0x82, 0xAC, 0xF0, 0x9F, 0x98, 0x80],
+                                      Sym("in_len", (), "usize", 0, 64), origin="input"))], True)
+    for self_ty, key in table.method_keys("mutate_string"):
+        if key.startswith(table.trait + "::"):
+            continue
+        short = self_ty.split("::")[-1]
+        for lf in fired("mutate_string", self_ty, key, None, non_ascii):
+            nleaves += 1
+            res.count("contract-nonascii")
+            if short == "StringLengthMutator":
+                for p in contract(short, "mutate_string", lf["ret"].fields[0], lf["val"], lf):
+                    slug = "result-shape" if p.startswith("result ") else p.split(":")[0][:50].replace(" ", "_")
+                    res.add("contract", "%s/mutate_string/non-ascii/%s" % (short, slug), "%s::mutate_string violates its contract on a string with multi-byte characters: %s" % (short, p), env.loc(key))
     # provided defaults never fire
     for name in VALUE_METHODS:
         dk = table.trait + "::" + name
